@@ -176,11 +176,12 @@ Definition mpsc_recv (ctx : pctx) (jt ch : nat) (kont : recv_res -> code) : code
     (acquire_ctx ctx jt ch 1 (fun ok =>
        if ok then recv_tail ch (kont RcNone) (fun v => give_back ch (kont (RcOk v))) else kont RcNone)).
 
-(* ReceiverInternal::blocking_recv: acquire_blocking, Channel::recv - and no release of the send permit *)
+(* ReceiverInternal::blocking_recv: acquire_blocking, Channel::recv, and the slot given back as in recv
+   (since /repo 7bf2a6b; before, the send permit was never released: fixed finding C19-F1) *)
 Definition mpsc_blocking_recv (jt ch : nat) (kont : recv_res -> code) : code :=
   recv_gate ch (kont RcNone)
     (acquire_ctx CtxBlockOn jt ch 1 (fun ok =>
-       if ok then recv_tail ch (kont RcNone) (fun v => kont (RcOk v)) else kont RcNone)).
+       if ok then recv_tail ch (kont RcNone) (fun v => give_back ch (kont (RcOk v))) else kont RcNone)).
 
 (* ReceiverInternal::try_recv; an acquired permit for an empty buffer is the `expect` panic *)
 Definition mpsc_try_recv (ch : nat) (kont : recv_res -> code) : code :=
@@ -238,3 +239,7 @@ Definition tok_sem_new (n : N) (creator_clock : vclock) : obj := OSem (sem_new n
 
 Definition sem_info (st : store) (s : nat) : option (list N) :=
   match sem_at st s with Some sm => Some [sm_avail sm; b2n (sm_closed sm)] | None => None end.
+
+(* Semaphore::is_closed on the wrapper's semaphore *)
+Definition sem_closed_at (st : store) (s : nat) : option bool :=
+  match sem_at st s with Some sm => Some (sm_closed sm) | None => None end.
